@@ -563,8 +563,15 @@ double Find_Root(std::function<double(double)> func, double xLeft, double xRight
 			double x3 = (x1 + x2) / 2.0;
 
 			double f3 = func(x3);
-			// New point
-			double x4 = x3 + (x3 - x1) * Sign(f1 - f2) * f3 / sqrt(f3 * f3 - f1 * f2);
+			// New point. Ridders' formula is homogeneous of degree zero in (f1, f2, f3): evaluate it on the values scaled by a power of two
+			// (exact), so that the products neither underflow to zero (0/0 = nan) nor overflow for tiny or huge function values.
+			int exponent;
+			std::frexp(std::max(std::fabs(f3), std::max(std::fabs(f1), std::fabs(f2))), &exponent);
+			double g1 = std::ldexp(f1, -exponent);
+			double g2 = std::ldexp(f2, -exponent);
+			double g3 = std::ldexp(f3, -exponent);
+			double s  = sqrt(g3 * g3 - g1 * g2);
+			double x4 = (s > 0.0) ? x3 + (x3 - x1) * Sign(g1 - g2) * g3 / s : x3;
 			// In exact arithmetic x4 lies inside the bracket; rounding can push it past the nearer end by a few ulp.
 			if(x4 < std::min(x1, x2))
 				x4 = std::min(x1, x2);
